@@ -144,17 +144,18 @@ def body_for(var, kind, tid, par):
     return "match %s { Some(%s) => { %s } None => { %s } }" % (var, var, inner, acc % "7")
 
 
-def emit(scheds, out_rs, out_json):
+def emit_chunk(scheds, base, out_rs):
     o = []
     w = o.append
     w("// @generated by tools/gen_sched.py — do not edit.")
     w("#![allow(unused_variables, unused_mut, unused_imports, non_snake_case, clippy::all)]")
-    w("use crate::sched_support::*;")
+    w("use brood_verif_sched::sched_support::*;")
     w("use brood::{entity, query::{filter, result, Result, Views}, registry::ContainsViews, system::{schedule, schedule::task, System, ParSystem}, Query};")
     w("use rayon::iter::ParallelIterator;")
     w("use std::sync::atomic::{AtomicU64, Ordering};")
     w("")
     for si, sched in enumerate(scheds):
+        si += base
         w("pub mod s%d {" % si)
         w("    use super::*;")
         for ti, t in enumerate(sched):
@@ -235,24 +236,39 @@ def emit(scheds, out_rs, out_json):
     w("        _ => unreachable!(),")
     w("    }")
     w("}")
-    w("pub const NSCHED: usize = %d;" % len(scheds))
     w("pub fn run_sched(k: usize, world: &mut WS, reference: &mut WS) -> (Vec<u64>, Vec<u64>) {")
     w("    match k {")
     for si in range(len(scheds)):
-        w("        %d => s%d::run(world, reference)," % (si, si))
-    w("        _ => unreachable!(),")
+        w("        %d => s%d::run(world, reference)," % (si + base, si + base))
+    w("        _ => panic!(\"schedule {} is not in this binary\", k),")
     w("    }")
     w("}")
+    w("include!(\"../sched_main.rs\");")
     text = "\n".join(o) + "\n"
     old = open(out_rs).read() if os.path.exists(out_rs) else None
     if old != text:
         with open(out_rs, "w") as f:
             f.write(text)
+
+
+def emit(scheds, out_dir, out_json, chunk):
+    """One binary per chunk of schedules: harness_sched/src/bin/sched_<k>.rs."""
+    bindir = os.path.join(out_dir, "src", "bin")
+    os.makedirs(bindir, exist_ok=True)
+    want = set()
+    for k in range(0, len(scheds), chunk):
+        name = "sched_%d.rs" % (k // chunk)
+        want.add(name)
+        emit_chunk(scheds[k:k + chunk], k, os.path.join(bindir, name))
+    for f in os.listdir(bindir):
+        if f.startswith("sched_") and f.endswith(".rs") and f not in want:
+            os.remove(os.path.join(bindir, f))
     os.makedirs(os.path.dirname(out_json), exist_ok=True)
     with open(out_json, "w") as f:
-        json.dump(scheds, f)
+        json.dump({"chunk": chunk, "schedules": scheds}, f)
 
 
 if __name__ == "__main__":
     count = int(sys.argv[1])
-    emit(family(count), sys.argv[2], sys.argv[3])
+    chunk = int(sys.argv[4]) if len(sys.argv) > 4 else 3
+    emit(family(count), sys.argv[2], sys.argv[3], chunk)
